@@ -1,5 +1,6 @@
 """P rules: KanalPtr encoding.  DESIGN.md §3.8."""
 from engine import rule
+import fam
 import sem
 from sem import labels, has, contains
 from mir import fmt, canon, is_const
@@ -118,6 +119,10 @@ def touches(p, evs):
                 t.add('VIA_SIGNAL_DROP')
             if n in PTR_READ:
                 t.add('PTR_READ')
+                x = a[-1] if a else None
+                if x is not None and x[0] == 'call' and x[2] in ('std::mem::MaybeUninit::as_ptr', 'std::mem::MaybeUninit::as_mut_ptr') and x[3] \
+                        and x[3][0][0] in ('ref', 'rawptr') and x[3][0][1][0] == 'local':
+                    t.add('OWN_SLOT_TAKE')  # ptr::read(slot.as_ptr()) of the receiver's own local slot
             if n in PTR_WRITE:
                 t.add('PTR_WRITE')
             if n in PTR_COPY:
@@ -236,6 +241,8 @@ def p2(ctx):
             ctx.oblige(1, sample='%s big=%s touches %s' % (nm, big, sorted(got)))
             if big == 'T':
                 expect(ctx, b.key, p, got, must=('MU_NEW_PARAM',), mustnot=('BITCOPY',), what='%s for a large T stores the address' % nm)
+            elif big == 'F' and zst == 'T':
+                expect(ctx, b.key, p, got, must=(), mustnot=small_not, what='%s for a zero-sized T (nothing to encode)' % nm)
             elif big == 'F':
                 expect(ctx, b.key, p, got, must=small_must, mustnot=small_not, what='%s for a small T' % nm)
             else:
@@ -253,7 +260,7 @@ def p2(ctx):
                 if big == 'F':
                     if p.end == 'panic':
                         ctx.violate(b.key, p, 'new_owned panics for a small T')
-                    expect(ctx, b.key, p, got, must=('BITCOPY', 'FORGET'), mustnot=('MU_NEW_PARAM',), what='new_owned')
+                    expect(ctx, b.key, p, got, must=('FORGET',) if zst == 'T' else ('BITCOPY', 'FORGET'), mustnot=('MU_NEW_PARAM',), what='new_owned')
     b = body('pointer::store_as_kanal_ptr')
     if b is not None:
         ctx.instance(b.key)
@@ -266,7 +273,9 @@ def p2(ctx):
             elif zst == 'F':
                 expect(ctx, b.key, p, got, must=('PTR_COPY',), what='store_as_kanal_ptr')
             else:
-                ctx.violate(b.key, p, 'store_as_kanal_ptr does not test for zero size')
+                # no zero-size test inside: a one-element typed copy of a zero-sized T copies nothing, so the test is an
+                # optimisation, not a correctness condition; the copy itself must be there
+                expect(ctx, b.key, p, got, must=('PTR_COPY',), what='store_as_kanal_ptr')
     # --- waiter-side tails (sibling group 1): recv / recv_timeout ---
     sib = {}
     for key in ('Receiver::<T>::recv', 'Receiver::<T>::recv_timeout'):
@@ -403,7 +412,8 @@ def p3(ctx):
                 if n not in ('std::ptr::read', 'std::ptr::write', 'std::ptr::copy_nonoverlapping'):
                     ctx.violate(key, None, 'unrecognised raw memory operation %s' % n, at=t.get('at'), sig='rawop:' + n)
                     continue
-                if n == 'std::ptr::read' and fn['args'][:1] and 'Arc<' in fn['args'][0] and 'ChannelInternal' in fn['args'][0] and key in BYVAL_CONV:
+                if n == 'std::ptr::read' and fn['args'][:1] and 'Arc<' in fn['args'][0] and 'ChannelInternal' in fn['args'][0] and (
+                        key in BYVAL_CONV or (fam.owners(ctx, key) and fam.owners(ctx, key) <= set(BYVAL_CONV))):
                     continue  # a by-value conversion moving its Arc out of self: not a payload copy; L4 decides whether it is right
                 if fn['args'][:1] != ['T']:
                     ctx.violate(key, None, '%s instantiated at %s instead of the payload type T' % (n, fn['args']), at=t.get('at'), sig='rawop-type')
